@@ -146,7 +146,7 @@ extern "C" __attribute__((used, visibility("default"))) const char* __ubsan_defa
 
 #ifdef VF_TSAN
 extern "C" __attribute__((used, visibility("default"))) const char* __tsan_default_options() {
-    return "halt_on_error=0:exitcode=0:suppress_equal_stacks=0:suppress_equal_addresses=0:report_signal_unsafe=0:"
+    return "halt_on_error=1:exitcode=66:suppress_equal_stacks=0:suppress_equal_addresses=0:report_signal_unsafe=0:"
            "history_size=7:external_symbolizer_path=/usr/bin/llvm-symbolizer-14:second_deadlock_stack=0:report_thread_leaks=0";
 }
 extern "C" __attribute__((used, visibility("default"))) void __tsan_on_report(void*) {
